@@ -68,7 +68,7 @@ def evaluate(prop, sc, want_trace=False):
         if (sc.get('faults') or {}).get('fail'):
             # with a consumer that raised, only the node right above it is judged: its later outputs still carry
             # the metadata of exactly their members (who else gets what after an exception is C16's subject)
-            V += an.check_sync_nodes(only_ops=('sliding_window',))
+            V += an.check_sync_nodes(only_ops=('sliding_window',)) + an.check_collect_consistency()
         else:
             V += an.check_sync_nodes() + an.check_md_shape() + an.check_edges() + an.check_async_nodes()
     elif prop == 'C13':
